@@ -74,3 +74,96 @@ def NoFreshRequest (H : Bytes → Bytes) (s : State) : List Op → Req → Prop
   | [], _ => True
   | op :: rest, q => creates s op ≠ some q ∧ NoFreshRequest H (step H s op) rest q
 end Poly.Model.Gov
+
+namespace Poly.Model.Gov
+
+/-- Two different messages with the same ledger key. -/
+def LedgerCollision (H : Bytes → Bytes) : Prop := ∃ x y, x ≠ y ∧ H x = H y
+
+/-- Number of consensus-set entries whose address is among the approvers. -/
+def approvedBy (cons approvers : List Addr) : Nat := (cons.filter (fun c => approvers.contains c)).length
+
+/-- The ledger as the code runs it on a sequence of approvals of one (method, request), each with the consensus set in
+force at that moment: the stored signer list (emptied when the action is applied) and, per approval, whether the
+action was applied. -/
+def ledgerRun : List Addr → List (Addr × List Addr) → List Bool
+  | _, [] => []
+  | l, (a, cons) :: rest =>
+    (ccsCore l cons a).2 :: ledgerRun (if (ccsCore l cons a).2 then [] else (ccsCore l cons a).1) rest
+
+/-- The property's reading of the same sequence: everybody who approved since the action last took effect (repeats
+kept, outsiders kept); the action is applied exactly when the consensus members among them reach ceil(2N/3). -/
+def quorumSpec : List Addr → List (Addr × List Addr) → List Bool
+  | _, [] => []
+  | acc, (a, cons) :: rest =>
+    decide ((2 * cons.length + 2) / 3 ≤ approvedBy cons (acc ++ [a])) ::
+      quorumSpec (if (2 * cons.length + 2) / 3 ≤ approvedBy cons (acc ++ [a]) then [] else acc ++ [a]) rest
+
+/-- The ledger key an approval or clearing transaction works on in state `s`. -/
+def ledgerKeyOf (H : Bytes → Bytes) (s : State) (op : Op) : Option Bytes :=
+  match plan H s op with
+  | .ok (.approve ap) => some (ledgerKey H ap.method ap.input)
+  | .ok (.done _) =>
+    match op with
+    | .unreg _ pk _ => match decodePk pk with
+      | some kb => match alGet s.apply kb with
+        | some (apk, _) => some (ledgerKey H "approveCandidate" (strBytes apk))
+        | none => none
+      | none => none
+    | .scupd _ r => some (ledgerKey H "approveUpdateSideChain" (u64le r.chainId))
+    | _ => none
+  | _ => none
+
+/-- The method names passed to `CheckConsensusSigns` by the ten approval handlers. -/
+def approvalMethods : List String :=
+  ["approveCandidate", "blackNode", "whiteNode", "approveRegisterSideChain", "approveUpdateSideChain", "quitSideChain",
+   "approveRegisterRelayer", "approveRemoveRelayer", "approveRegisterStateValidator", "approveRemoveStateValidator"]
+
+end Poly.Model.Gov
+
+namespace Poly.Model.Gov
+
+/-- The vote ledger as the code runs it over a sequence of votes (voter, consensus addresses then in force):
+per vote `none` (rejected) or `some released`. -/
+def voteRun : (Bool × List Addr) → List (Addr × List Addr) → List (Option Bool)
+  | _, [] => []
+  | info, (a, cons) :: rest =>
+    match voteStep info cons a with
+    | none => none :: voteRun info rest
+    | some (info', r) => some r :: voteRun info' rest
+
+/-- The property's reading: a vote of a non-member is rejected; accepted voters accumulate (repeats kept); the message
+is released at the first vote at which the consensus members among the accepted voters reach ceil(2N/3), and never
+again (`released` latches; later votes are ignored). -/
+def voteSpec : Bool → List Addr → List (Addr × List Addr) → List (Option Bool)
+  | _, _, [] => []
+  | released, acc, (a, cons) :: rest =>
+    if released then some false :: voteSpec true acc rest
+    else if !cons.contains a then none :: voteSpec false acc rest
+    else some (decide ((2 * cons.length + 2) / 3 ≤ approvedBy cons (acc ++ [a]))) ::
+           voteSpec (decide ((2 * cons.length + 2) / 3 ≤ approvedBy cons (acc ++ [a]))) (acc ++ [a]) rest
+
+/-- The signature ledger over a sequence of signatures (signer, signature, consensus addresses): `none` (rejected) or
+`some emitted`. -/
+def sigRun : (Bool × List (Addr × Bytes)) → List (Addr × Bytes × List Addr) → List (Option Bool)
+  | _, [] => []
+  | info, (a, sg, cons) :: rest =>
+    match sigStep info cons a sg with
+    | none => none :: sigRun info rest
+    | some (info', r) => some r :: sigRun info' rest
+
+/-- The property's reading: signers accumulate also after the quorum; the quorum event is emitted at the first
+signature at which the consensus members among the signers reach ceil(2N/3), and never again. -/
+def sigSpec : Bool → List Addr → List (Addr × Bytes × List Addr) → List (Option Bool)
+  | _, _, [] => []
+  | emitted, acc, (a, _, cons) :: rest =>
+    if !cons.contains a then none :: sigSpec emitted acc rest
+    else some (decide ((2 * cons.length + 2) / 3 ≤ approvedBy cons (acc ++ [a])) && !emitted) ::
+           sigSpec (emitted || decide ((2 * cons.length + 2) / 3 ≤ approvedBy cons (acc ++ [a]))) (acc ++ [a]) rest
+
+def countTrue : List (Option Bool) → Nat
+  | [] => 0
+  | some true :: rest => countTrue rest + 1
+  | _ :: rest => countTrue rest
+
+end Poly.Model.Gov
